@@ -111,3 +111,8 @@ func VerifLastGCSn(m *Nitro) uint32 { return atomic.LoadUint32(&m.lastGCSn) }
 
 // VerifItemsCount returns the global live-item counter without a scheduling point.
 func VerifItemsCount(m *Nitro) int64 { return atomic.LoadInt64(&m.itemsCount) }
+
+// VerifIterState returns the private counters and the cursor node of a snapshot iterator.
+func VerifIterState(it *Iterator) (count, refreshRate int, node *skiplist.Node) {
+	return it.count, it.refreshRate, it.iter.GetNode()
+}
